@@ -64,6 +64,10 @@ CATALOGUE = [
     # trying non-leaf nodes against it while flattening must not leave the name bound to their structure
     ("tuple", [("spytree", ARR("a"), "C", 2), ARR("b")]),
     ("tuple", [("spytree", ("int",), "C", 2), ("str",)]),
+    # the leaf type IS a structured PyTree: PyTree[PyTree[int, 'C']] - with 'C' unbound the whole value is one leaf (and
+    # binds C); with 'C' bound EARLIER in the context only pieces of that structure are leaves
+    ("spytree", ("int",), "C", 2),
+    ("spytree", ARR("a"), "C", 2),
     # a NamedTuple CLASS as leaf type: its field annotations are part of the type
     ("ntclass", [ARR("a"), ARR("a")]),
     ("ntclass", [ARR("a b"), ARR("b", "Int")]),
@@ -86,7 +90,7 @@ def required_counters(tier):
         "law.nested": 500,
         "law.bare": 500,
         "bindings_compared": 1000,
-        "L.pep604": 50, "L.arrnode": 100, "L.ntclass": 100, "annotation_built_while_checking_disabled": 100, "hostile_values": 16, "identity_cases": 16,
+        "L.pep604": 50, "L.arrnode": 100, "L.ntclass": 100, "structure_name_bound_earlier": 100, "annotation_built_while_checking_disabled": 100, "hostile_values": 16, "identity_cases": 16,
     }
 
 
@@ -162,7 +166,7 @@ def model_pytree(x, L, s, v):
         return "ok", s, v, 0, None
     if L[0] == "any":
         return "ok", s, v, len(TM.leaves(x)), None
-    isl = lambda y: LT.matches(y, L, {}, {}, True)[0]
+    isl = lambda y: LT.matches(y, L, LT.structs_only(s), {}, True)[0]
     lv = TM.leaves(x, isl)
     s1, v1 = s, v
     for i, leaf in enumerate(lv):
@@ -186,6 +190,16 @@ def run_case(rec, rng, rngkey=None):
         """variant: 'plain' | 'nested' ; returns (got, bindings)"""
         rr = random.Random(rngkey + "/tree")
         single, variadic, state = build_state(rr) if has_arr else ({}, {}, [])
+        if "'spytree'" in repr(L) and rr.random() < 0.5:
+            # the structure name used inside the leaf type has been bound EARLIER in this context (to a pair)
+            import typing
+
+            if real.check((0, 0), jaxtyping.PyTree[typing.Any, "C"]) == "ok":
+                single = dict(single)
+                single[LT.STRUCT_KEY + "C"] = TM.struct((0, 0))
+                state = list(state) + [["structure C bound earlier", "(*, *)"]]
+                if variant == "plain":
+                    rec.count("structure_name_bound_earlier")
         mk = leaf_gen(L, single, variadic)
         top = rr.random()
         if top < 0.04:
